@@ -27,6 +27,22 @@ def distinctCodes (code : List Nat → Option Nat) : List (List Nat) → Nat →
     | none => false
     | some c => if seen.testBit c then false else distinctCodes code ws (seen ||| (1 <<< c))
 
+/-- what the accent-insensitive comparators compare: the string without its bytes >= 0x80 -/
+def strip (s : List Nat) : List Nat := s.filter (fun b => !isNeg b)
+
+/-- the proper prefixes of at least four bytes -/
+def prefixes4 (e : List Nat) : List (List Nat) :=
+  (List.range e.length).filterMap (fun n => if 4 ≤ n then some (e.take n) else none)
+
+/-- the tokens that must be found at the index of table word `w`: the word as listed; for the abbreviating
+languages also its comparison form (`strip w` if the language folds accents, `w` otherwise) and every proper
+prefix of at least four letters of that form. -/
+def keysOf (L : Lang) (w : List Nat) : List (List Nat) :=
+  if L.hasPrefix then
+    let e := if L.hasAccents then strip w else w
+    w :: e :: prefixes4 e
+  else [w]
+
 def linearFindsAll (L : Lang) : Bool :=
   distinctCodes wordCode L.words.toList 0
 
@@ -48,13 +64,15 @@ def prefixCheck (L : Lang) : Bool := !L.hasPrefix || distinctCodes prefixCode L.
 
 def tableCheck (L : Lang) : Bool :=
   Nat.beq L.words.size 2048 && L.words.toList.all wordBytesOk &&
-    (if L.isSorted then treeOk (getComparer L) (L.words.size + 1) L.words.toList
+    (if L.isSorted then treeOk (getComparer L) (keysOf L) (L.words.size + 1) L.words.toList
      else (!L.hasPrefix && !L.hasAccents) && linearFindsAll L)
 
 structure TableOK (L : Lang) : Prop where
   size : L.words.size = 2048
   bytes : ∀ w ∈ L.words.toList, w ≠ [] ∧ ∀ b ∈ w, 0 < b ∧ b < 256 ∧ b ≠ 32
   finds : ∀ i (hi : i < L.words.size), findWord L L.words[i] = some i
+  /-- every admissible abbreviation is found at the word's index (sorted lists) -/
+  findsKeys : L.isSorted = true → ∀ i (hi : i < L.words.size), ∀ k ∈ keysOf L L.words[i], findWord L k = some i
 
 /-! ### first-match search on a duplicate-free list -/
 
@@ -191,7 +209,14 @@ theorem tableOK_of_check (L : Lang) (h : tableCheck L = true) : TableOK L := by
     refine ⟨this.1, fun b hb' => ?_⟩
     have := this.2 b hb'
     exact ⟨blt_true this.1.1, blt_true this.1.2, Nat.ne_of_beq_eq_false this.2⟩
-  refine ⟨hsize, hb, ?_⟩
+  have hself : ∀ w, w ∈ keysOf L w := by
+    intro w; unfold keysOf; split <;> simp
+  refine ⟨hsize, hb, ?_, ?_⟩
+  rotate_left
+  · intro hs i hi k hk
+    unfold findWord langSearch
+    simp only [hs, ↓reduceIte] at hfind ⊢
+    exact bsearch_finds_all (getComparer L) (keysOf L) L.words (by simpa using hfind) i hi k hk
   intro i hi
   unfold findWord langSearch
   cases hs : L.isSorted
@@ -219,7 +244,7 @@ theorem tableOK_of_check (L : Lang) (h : tableCheck L = true) : TableOK L := by
         exact hne hcj.symm)
     simpa using this
   · simp only [hs, ↓reduceIte] at hfind ⊢
-    exact bsearch_finds_all (getComparer L) L.words (by simpa using hfind) i hi
+    exact bsearch_finds_all (getComparer L) (keysOf L) L.words (by simpa using hfind) i hi _ (hself _)
 
 end Polyseed
 
